@@ -195,6 +195,21 @@ J gen_tunnel(uint64_t seed, const J &ov)
 			if (r.chance(0.5)) gen_traffic(r, ops, me, "ext", (int)r.range(1, 10), 0.1, W, ser, maxlen, false);
 			gen_traffic(r, ops, "srv", me, (int)r.range(5, 30), 0.1, W, ser, maxlen, false);
 		}
+		// pairs of frames that an Adler-32 cannot tell apart once they are spliced (same first part but for a +1/-2/+1 tweak, different
+		// rest), offered back to back: any mix-up of two packets in flight passes the decompressor
+		{
+			int np = (int)r.range(0, 4);
+			for (int i = 0; i < np; i++) {
+				std::string at = r.chance(0.6) ? "c0" : "srv";
+				double tp = 0.3 + r.uniform() * W; long long pair = (long long)(r.next() % 60000 + 1); int alen = (int)r.range(300, 1200);
+				for (int v = 0; v < 2; v++) {
+					J op = J::obj(); op.set("t", (long long)((tp + v * (0.002 + r.uniform() * 0.05)) * 1e6)); op.set("op", "tun"); op.set("at", at); op.set("ser", (long long)++ser);
+					op.set("len", alen); op.set("body", "adler"); op.set("pair", pair); op.set("variant", v ? "b" : "a");
+					op.set("dst", at == "srv" ? "c0" : "srv"); op.set("src", at == "srv" ? "ext" : "c0");
+					ops.push(op);
+				}
+			}
+		}
 		if (ncli <= 2 && r.chance(0.15)) {
 			J op = J::obj(); op.set("t", (long long)((2 + r.uniform() * W) * 1e6)); op.set("op", "restart"); op.set("task", "c" + std::to_string(r.range(0, ncli - 1)));
 			op.set("after_us", (long long)r.range(1000, 3000000));
